@@ -243,9 +243,11 @@ func looseCompare(c *Ctx, rule string, fn *ssa.Function, host ssa.Value) {
 // placeholderConst returns the placeholder literal used by CheckHost's substitution.
 func checkHostPlaceholder(c *Ctx) (string, bool) {
 	fn := c.Fn("cmd/rdpgw/security", "CheckHost")
-	for _, ci := range callsTo(fn, "strings.Replace", "strings.ReplaceAll") {
-		if s, ok := constString(arg(ci, 1)); ok {
-			return s, true
+	for _, sf := range scopeFuncs(fn, 1) {
+		for _, ci := range callsTo(sf, "strings.Replace", "strings.ReplaceAll") {
+			if s, ok := constString(arg(ci, 1)); ok {
+				return s, true
+			}
 		}
 	}
 	return "", false
@@ -272,8 +274,8 @@ func c03ListPolicy(c *Ctx) {
 		if !ok || !call.Call.IsInvoke() || call.Call.Method.Name() != "UserName" {
 			return false
 		}
-		// receiver: <tunnel from this context>.User
-		b, f, ok := fieldLoad(call.Call.Value)
+		// receiver: <tunnel from this context>.User (possibly handed to a helper)
+		b, f, ok := fieldLoad(strip(rv(call.Call.Value)))
 		if !ok || f.Name() != "User" {
 			return false
 		}
@@ -295,7 +297,7 @@ func c03ListPolicy(c *Ctx) {
 			return false
 		}
 		ia, ok := el.(*ssa.IndexAddr)
-		if !ok || !isLoadOfGlobal(ia.X, hostsG) {
+		if !ok || !isLoadOfGlobal(rv(ia.X), hostsG) {
 			return false
 		}
 		if _, ok := constString(arg(call, 1)); !ok {
@@ -309,9 +311,9 @@ func c03ListPolicy(c *Ctx) {
 			return false
 		}
 		ia, ok := el.(*ssa.IndexAddr)
-		return ok && isLoadOfGlobal(ia.X, hostsG)
+		return ok && isLoadOfGlobal(rv(ia.X), hostsG)
 	}
-	gHostEq := GEq(func(v ssa.Value) bool { return isSubstEntry(v) || isPlainEntry(v) }, func(v ssa.Value) bool { return strip(v) == ssa.Value(hostP) })
+	gHostEq := GEq(func(v ssa.Value) bool { return isSubstEntry(v) || isPlainEntry(v) }, func(v ssa.Value) bool { return strip(rv(strip(v))) == ssa.Value(hostP) })
 	gUser := GNeq(isUserName, isStr(""))
 
 	exits := acceptingReturns(fn, 0, isConstFalse)
@@ -337,6 +339,19 @@ func c03ListPolicy(c *Ctx) {
 		c.Bad(rule, key+" placeholder", fn.Pos(), "no placeholder substitution with a constant placeholder found")
 	}
 	looseCompare(c, rule, fn, hostP)
+	for _, sf := range scopeFuncs(fn, 1)[1:] {
+		// helpers of CheckHost that are handed the requested host
+		for _, ci := range callsIn(fn) {
+			if ci.Common().StaticCallee() != sf {
+				continue
+			}
+			for i, a := range ci.Common().Args {
+				if strip(a) == ssa.Value(hostP) && i < len(sf.Params) {
+					looseCompare(c, rule, sf, sf.Params[i])
+				}
+			}
+		}
+	}
 	c.Floor(rule, 7, "2 accepting exits x 3 guards + placeholder")
 }
 
